@@ -8,3 +8,4 @@ pub mod c03;
 pub mod rules;
 pub mod cli;
 pub mod c01;
+pub mod fix;
